@@ -34,7 +34,7 @@ def designate(ftypes, marks, target):
     return (fi, method)
 
 
-def build(shape, ftypes, targets, marks, salt=0):
+def build(shape, ftypes, targets, marks, salt=0, ctx='alone', sspell=(0, 0)):
     """ftypes[vi] = string of type codes; targets: tuple of codes; marks[vi] = {(fi, target): method_bool}"""
     plans = {}
     for t in targets:
@@ -49,12 +49,25 @@ def build(shape, ftypes, targets, marks, salt=0):
         for fi in range(f.n):
             t.append(TYN[ftypes[vi][fi]])
             ms = []
+            TYNF = dict(TYN, s=['&\'static str', '&str'][sspell[1]])
             for (k, tg), meth in sorted(marks[vi].items()):
                 if k == fi:
                     if meth:
-                        ms.append('Into(%s, method(conv_m))' % TYN[tg] if (salt + fi) % 2 else 'Into(%s, method = "conv_m")' % TYN[tg])
+                        ms.append('Into(%s, method(conv_m))' % TYNF[tg] if (salt + fi) % 2 else 'Into(%s, method = "conv_m")' % TYNF[tg])
                     else:
-                        ms.append('Into(%s)' % TYN[tg])
+                        ms.append('Into(%s)' % TYNF[tg])
+            if ctx != 'alone':
+                # another trait's parameter in the same list / in a separate attribute / foreign attributes around the markers
+                from .common import FOREIGN
+                other = 'Debug(ignore)'
+                own = ', '.join(ms)
+                a.append({'list_before': ['#[educe(%s)]' % ', '.join([other] + ms)], 'list_after': ['#[educe(%s)]' % ', '.join(ms + [other])],
+                          'list_between': ['#[educe(%s)]' % ', '.join(ms[:1] + [other] + ms[1:])],
+                          'sep_before': ['#[educe(%s)]' % other] + ['#[educe(%s)]' % m for m in ms], 'sep_after': ['#[educe(%s)]' % m for m in ms] + ['#[educe(%s)]' % other],
+                          'foreign_before': FOREIGN + ['#[educe(%s)]' % m for m in ms] + ['#[educe(%s)]' % other],
+                          'foreign_after': ['#[educe(%s)]' % other] + ['#[educe(%s)]' % m for m in ms] + FOREIGN,
+                          'foreign_between': ['#[educe(%s)]' % other] + FOREIGN[:2] + ['#[educe(%s)]' % m for m in ms] + FOREIGN[2:]}[ctx])
+                continue
             if not ms:
                 a.append([])
             elif (salt + vi + fi) % 2:
@@ -63,7 +76,9 @@ def build(shape, ftypes, targets, marks, salt=0):
                 a.append(['#[educe(%s)]' % m for m in ms])
         tys.append(t)
         fattrs.append(a)
-    tl = ['Into(%s)' % TYN[t] for t in targets]
+    tl = ['Into(%s)' % dict(TYN, s=['&\'static str', '&str'][sspell[0]])[t] for t in targets]
+    if ctx != 'alone':
+        tl = (['Debug'] + tl) if ctx.endswith('before') else (tl + ['Debug'])
     if salt % 3 == 0:
         tattrs = ['#[educe(%s)]' % ', '.join(tl)]
     elif salt % 3 == 1:
@@ -88,6 +103,10 @@ def build(shape, ftypes, targets, marks, salt=0):
     src += 'pub fn check(r: &mut Rep) {\n%s}\n' % body
     mk = ';'.join(','.join('%d%s%s' % (fi, tg, 'm' if meth else '') for (fi, tg), meth in sorted(m.items())) for m in marks)
     key = 'C10|%s|%s|%s|%s' % (shape.code(), ','.join(ftypes), ''.join(targets), mk)
+    if ctx != 'alone':
+        key += '|' + ctx
+    if sspell != (0, 0):
+        key += '|str%d%d' % sspell
     depth = len(targets) - 1 + sum(len(m) + sum(1 for x in m.values() if x) for m in marks)
     return Case(key, src, {'shape': shape.code(), 'field_types': list(ftypes), 'targets': list(targets), 'markers': mk},
                 expect='accept', run=True, depth=depth)
@@ -167,6 +186,39 @@ def generate(tier):
                         c = build(sh, list(ft), ts, [m0, m1], salt)
                         if c:
                             cases.append(c)
+    # attribute contexts: another trait's parameter next to the markers (same list before / between / after, separate attributes, foreign attributes)
+    ctxs = ['list_before', 'list_after', 'list_between', 'sep_before', 'sep_after', 'foreign_before', 'foreign_after', 'foreign_between']
+    for style in 'tn':
+        for n in (2, 3):
+            fl = S.Fields(style, n)
+            for ft in (['ab', 'aa', 'ba'] if n == 2 else ['aab', 'aba', 'baa', 'bab']):
+                for ts in (('a',), ('b',), ('a', 'b'), ('w', 'a')):
+                    for marks in mark_sets(n, ts, 2):
+                        if not marks:
+                            continue
+                        for ctx in ctxs:
+                            salt += 1
+                            for sh in (S.Shape('struct', [fl]), S.Shape('enum', [S.Fields('t', 1), fl])):
+                                if tier == 'quick' and (salt + (sh.kind == 'enum')) % 3:
+                                    continue
+                                c = build(sh, [ft] if sh.kind == 'struct' else ['a' if 'w' not in ts else 'b', ft], ts,
+                                          [marks] if sh.kind == 'struct' else [{}, marks], salt, ctx=ctx)
+                                if c:
+                                    cases.append(c)
+    # reference targets in both spellings (`&'static str`, `&str`) at the type level and on the field
+    for style in 'tn':
+        for n in (1, 2, 3):
+            fl = S.Fields(style, n)
+            for ft in {1: ['s'], 2: ['sa', 'as', 'ss'], 3: ['asb', 'ssa']}[n]:
+                for ts in (('s',), ('a', 's'), ('s', 'b')):
+                    for marks in mark_sets(n, ts, 1):
+                        for sspell in ((0, 0), (1, 0), (0, 1), (1, 1)):
+                            salt += 1
+                            for sh in (S.Shape('struct', [fl]), S.Shape('enum', [fl, S.Fields('n', 1)])):
+                                c = build(sh, [ft] if sh.kind == 'struct' else [ft, 's' if 'b' not in ts and 'a' not in ts else 'a'], ts,
+                                          [marks] if sh.kind == 'struct' else [marks, {}], salt, sspell=sspell)
+                                if c:
+                                    cases.append(c)
     # field names that differ by the prefixes the templates use for their bindings (x, _x, __x, ...), and raw identifiers
     from .common import underscorify, rawify
     named = [x for x in cases if ':n' in x.key or '|n' in x.key]
